@@ -33,7 +33,7 @@ fn tags_for(n: u16, seed: u64) -> Vec<u8> {
 
 fn rt_oracle(c: &RtCase, st: &mut Stats) -> Result<(), String> {
   let mds = tags_for(c.ntags, c.tag_seed);
-  let server = Server::new(mds.clone()).map_err(|e| e.to_string())?;
+  let server = Server::new(registration_list(&mds)).map_err(|e| e.to_string())?;
   let pk = server.get_public_key();
   let b = pk.serialize_to_bincode().map_err(|e| format!("pk does not serialise: {e}"))?;
   st.evals(1);
